@@ -136,8 +136,6 @@ Qed.
 (* ------------------------------------------------------------------ *)
 (* transitions                                                          *)
 (* ------------------------------------------------------------------ *)
-Definition is_rising (k : kind) : bool := match k with Rising => true | Falling => false end.
-
 Lemma transitions_In : forall x prev i k a,
   In (k, a) (transitions prev i x) <->
   exists j, 0 <= j < zlen x /\ a = i + j /\ bit x j = is_rising k /\ xbit prev x (j - 1) = negb (is_rising k).
@@ -223,13 +221,6 @@ Qed.
 (* ------------------------------------------------------------------ *)
 (* edges of a list; the run-length precondition stated on positions     *)
 (* ------------------------------------------------------------------ *)
-Definition edge_at (u : list bool) (p : Z) (k : kind) : Prop :=
-  1 <= p < zlen u /\ bit u p = is_rising k /\ bit u (p - 1) = negb (is_rising k).
-
-(* after a change at i the level stays for more than m samples *)
-Definition wclean (m : Z) (u : list bool) : Prop :=
-  forall i j, 1 <= i -> i < j < zlen u -> bit u (i - 1) <> bit u i -> bit u j <> bit u i -> m < j - i.
-
 Lemma ssep_strengthen : forall g l, ssep 0 l ->
   (forall s e s' e', In (s, e) l -> In (s', e') l -> e < s' -> e + g < s') -> ssep g l.
 Proof.
@@ -383,6 +374,31 @@ Proof.
   intros. unfold step_list. apply flat_events_inc. apply ssep_filter. apply runs_ssep0.
 Qed.
 
+(* C13_step_characterisation: with s0 the start of the joined array and n the chunk length, a rising edge
+   at absolute sample r is reported by exactly the step with s0 < r <= s0 + n, a falling edge at f by
+   exactly the step with s0 + m <= f < s0 + m + n *)
+Lemma step_characterisation : forall d m st c, 1 <= m -> zlen (st_prior st) = m ->
+  joinable st c = true -> wclean m (st_prior st ++ c_data c) ->
+  exists E st', step d m st c = Some (E, st') /\
+    e_start E = st_s0 st /\ e_end E = st_s0 st + zlen (c_data c) /\ st_s0 st' = e_end E /\
+    zlen (st_prior st') = m /\ inc (evs E) /\
+    forall k a, In (k, a) (evs E) <->
+      wanted d (k, a) = true /\
+      exists p, a = p + st_s0 st /\ edge_at (st_prior st ++ c_data c) p k /\
+                (k = Rising -> p <= zlen (c_data c)) /\ (k = Falling -> m <= p).
+Proof.
+  intros d m st c Hm Hp Hj Hc. unfold step. rewrite Hj.
+  rewrite (step_events_clean d m (st_s0 st) _) by (try lia; exact Hc).
+  eexists. eexists. split; [reflexivity|]. cbn [evs e_start e_end st_s0 st_prior].
+  pose proof (zlen_nonneg _ (c_data c)) as Hn.
+  assert (Hw : zlen (st_prior st ++ c_data c) = m + zlen (c_data c)) by (rewrite zlen_app; lia).
+  split; [reflexivity|]. split; [reflexivity|]. split; [reflexivity|]. split.
+  - unfold py_slice, py_lo, py_hi, adj_bound. destruct (- m <? 0) eqn:E; [|lia].
+    rewrite Hw. unfold zlen. rewrite firstn_length, skipn_length. unfold zlen in Hw. lia.
+  - split; [apply step_list_inc|]. intros k a. rewrite window_events by assumption.
+    rewrite Hw. replace (m + zlen (c_data c) - m) with (zlen (c_data c)) by lia. reflexivity.
+Qed.
+
 (* ------------------------------------------------------------------ *)
 (* prefixes and suffixes                                                *)
 (* ------------------------------------------------------------------ *)
@@ -512,11 +528,13 @@ Lemma run_from_char : forall d m, 1 <= m -> forall cs st,
   wclean m (st_prior st ++ stream cs) ->
   exists bs, run_from d m st cs = (bs, Ok) /\
     inc (concat (map evs bs)) /\
-    forall k a, In (k, a) (concat (map evs bs)) <->
-                reported d m (st_s0 st) (st_prior st ++ stream cs) k a.
+    (forall k a, In (k, a) (concat (map evs bs)) <->
+                 reported d m (st_s0 st) (st_prior st ++ stream cs) k a) /\
+    (forall E e, In E bs -> In e (evs E) -> e_start E < snd e < e_end E + m).
 Proof.
   intros d m Hm. induction cs as [|c t IH]; intros st Hp Hok Hc.
-  - exists []. split; [reflexivity|]. split; [exact I|]. intros k a. cbn [map concat In].
+  - exists []. split; [reflexivity|]. split; [exact I|]. split; [|intros E e []].
+    intros k a. cbn [map concat In].
     split; [intros []|].
     intros (_ & p & _ & (P1 & _) & PR & PF). unfold stream in P1, PR. cbn [map concat] in P1, PR.
     rewrite app_nil_r in P1, PR.
@@ -542,7 +560,7 @@ Proof.
     { cbn [st' st_prior]. rewrite py_tail by lia. f_equal. lia. }
     assert (HU' : st_prior st' ++ stream t = skipn (Z.to_nat n) (w ++ stream t)).
     { rewrite Hpr, skipn_app. replace (Z.to_nat n - length w)%nat with 0%nat by lia. reflexivity. }
-    destruct (IH st') as (bs' & R1 & R2 & R3).
+    destruct (IH st') as (bs' & R1 & R2 & R3 & R4).
     + rewrite Hpr, zlen_skipn by exact Hkn. lia.
     + unfold st_annfs in *. cbn [st' st_s0 st_ann st_fs].
       replace (st_s0 st + n + m) with (st_s0 st + m + n) by lia. exact Hok.
@@ -556,7 +574,11 @@ Proof.
         intros [k1 a1] [k2 a2] I1 I2. cbn [snd].
         apply M1 in I1. apply R3 in I2.
         eapply (cross_order d m (st_s0 st) w (stream t) n); eassumption.
-      * intros k a. rewrite in_app_iff, M1, R3. symmetry. apply split_reported; assumption.
+      * split; [intros k a; rewrite in_app_iff, M1, R3; symmetry; apply split_reported; assumption|].
+        intros E0 [k a] [<-|HE] He; [|apply R4; assumption].
+        cbn [E evs e_start e_end snd] in *. apply M1 in He.
+        destruct He as (_ & p & -> & (P1 & _) & PR & PF).
+        destruct k; [specialize (PR eq_refl)|specialize (PF eq_refl)]; lia.
 Qed.
 
 (* ------------------------------------------------------------------ *)
@@ -574,7 +596,7 @@ Proof.
     + apply eqb_prop in E. subst b. destruct (IH _ _ H) as [I1 I2]. split.
       * intros j Hj Hb. rewrite bit_cons in Hb. destruct (j =? 0) eqn:E0; [congruence|].
         assert (m < cnt + 1 + (j - 1)) by (apply I1; [lia|exact Hb]). lia.
-      * intros i j Hi Hj H1 H2. destruct (Z.eq_dec i 0) as [->|Ni].
+      * intros i j Hi Hj H1 H2. rewrite zlen_cons in Hj. destruct (Z.eq_dec i 0) as [->|Ni].
         -- exfalso. apply H1. reflexivity.
         -- rewrite xbit_cons in H1 by lia. rewrite (bit_cons prev t i) in H1, H2.
            rewrite (bit_cons prev t j) in H2.
@@ -582,7 +604,7 @@ Proof.
            assert (m < (j - 1) - (i - 1)); [|lia]. apply I2; [lia|lia|exact H1|exact H2].
     + apply andb_true_iff in H. destruct H as [Hcnt H]. destruct (IH _ _ H) as [I1 I2]. split.
       * intros j Hj Hb. lia.
-      * intros i j Hi Hj H1 H2. destruct (Z.eq_dec i 0) as [->|Ni].
+      * intros i j Hi Hj H1 H2. rewrite zlen_cons in Hj. destruct (Z.eq_dec i 0) as [->|Ni].
         -- rewrite (bit_cons b t j), (bit_cons b t 0) in H2. cbn [Z.eqb] in H2.
            destruct (j =? 0) eqn:Ej; [lia|].
            assert (m < 1 + (j - 1)) by (apply I1; [lia|exact H2]). lia.
@@ -666,17 +688,191 @@ Lemma all_full : forall d m init fs_arg cs first,
   1 <= m -> input_ok first cs -> clean m init (stream cs) = true ->
   exists bs, run_edges d m init fs_arg cs = (bs, Ok) /\
     concat (map evs bs) =
-    filter (wanted d) (filter (due_by m (first + zlen (stream cs))) (transitions init first (stream cs))).
+    filter (wanted d) (filter (due_by m (first + zlen (stream cs))) (transitions init first (stream cs))) /\
+    (forall E e, In E bs -> In e (evs E) -> e_start E < snd e < e_end E + m).
 Proof.
   intros d m init fs_arg cs first Hm Hin Hcl. unfold run_edges.
   destruct (m <? 1) eqn:E; [lia|].
   destruct cs as [|c t].
-  - exists []. split; reflexivity.
+  - exists []. split; [reflexivity|]. split; [reflexivity|intros E0 e []].
   - destruct (start_facts m init fs_arg c t first ltac:(lia) Hin) as (S1 & S2 & S3 & S4).
-    destruct (run_from_char d m Hm (c :: t) (start m init fs_arg c) S1 S4) as (bs & R1 & R2 & R3).
+    destruct (run_from_char d m Hm (c :: t) (start m init fs_arg c) S1 S4) as (bs & R1 & R2 & R3 & R4).
     + rewrite S2. apply clean_wclean; [lia|exact Hcl].
-    + exists bs. split; [exact R1|]. apply inc_ext.
+    + exists bs. split; [exact R1|]. split; [|exact R4]. apply inc_ext.
       * exact R2.
       * apply inc_filter. apply inc_filter. apply transitions_inc.
       * intros [k a]. rewrite R3, S2, S3. apply reported_transitions. exact Hm.
 Qed.
+
+(* ------------------------------------------------------------------ *)
+(* prefixes of the input: what has been reported after kk chunks        *)
+(* ------------------------------------------------------------------ *)
+Lemma run_from_firstn : forall d m cs st bs kk, run_from d m st cs = (bs, Ok) ->
+  run_from d m st (firstn kk cs) = (firstn kk bs, Ok).
+Proof.
+  intros d m. induction cs as [|c t IH]; intros st bs kk H.
+  - cbn in H. inversion H; subst. destruct kk; reflexivity.
+  - destruct kk as [|kk]; [reflexivity|].
+    cbn [run_from firstn] in *. destruct (step d m st c) as [[E st']|]; [|discriminate].
+    destruct (run_from d m st' t) as [bs' s'] eqn:Hr. inversion H; subst.
+    rewrite (IH st' bs' kk Hr). reflexivity.
+Qed.
+
+Lemma run_edges_firstn : forall d m init fs cs bs kk, run_edges d m init fs cs = (bs, Ok) ->
+  run_edges d m init fs (firstn kk cs) = (firstn kk bs, Ok).
+Proof.
+  intros d m init fs cs bs kk H. unfold run_edges in *. destruct (m <? 1); [discriminate|].
+  destruct cs as [|c t].
+  - inversion H; subst. destruct kk; reflexivity.
+  - destruct kk as [|kk]; [reflexivity|].
+    change (match firstn (S kk) (c :: t) with [] => ([], Ok) | c0 :: _ => run_from d m (start m init fs c0) (firstn (S kk) (c :: t)) end)
+      with (run_from d m (start m init fs c) (firstn (S kk) (c :: t))).
+    apply run_from_firstn. exact H.
+Qed.
+
+Lemma chunks_ok_firstn : forall fs cs pos kk, chunks_ok fs pos cs -> chunks_ok fs pos (firstn kk cs).
+Proof.
+  intros fs. induction cs as [|c t IH]; intros pos kk H; [destruct kk; exact I|].
+  destruct kk as [|kk]; [exact I|]. destruct H as [H1 H2]. cbn [firstn chunks_ok].
+  split; [exact H1|apply IH; exact H2].
+Qed.
+
+Lemma input_ok_firstn : forall first cs kk, input_ok first cs -> input_ok first (firstn kk cs).
+Proof.
+  intros first cs kk [[H1 H2]|[fs H]]; [left; split; [exact H1|]|right; exists fs];
+    apply chunks_ok_firstn; assumption.
+Qed.
+
+Lemma stream_split : forall kk cs, stream cs = stream (firstn kk cs) ++ stream (skipn kk cs).
+Proof.
+  intros kk cs. unfold stream. rewrite <- concat_app, <- map_app, firstn_skipn. reflexivity.
+Qed.
+
+Lemma transitions_app : forall a b prev i,
+  transitions prev i (a ++ b) = transitions prev i a ++ transitions (last a prev) (i + zlen a) b.
+Proof.
+  induction a as [|x a IH]; intros b prev i.
+  - cbn [app transitions last]. rewrite zlen_nil. f_equal. lia.
+  - cbn [app transitions]. rewrite IH, <- app_assoc. f_equal. rewrite zlen_cons, last_cons.
+    replace (i + (1 + zlen a)) with (i + 1 + zlen a) by lia. reflexivity.
+Qed.
+
+Lemma filter_none : forall (f : ev -> bool) l, (forall e, In e l -> f e = false) -> filter f l = [].
+Proof.
+  intros f. induction l as [|x l IH]; intros H; [reflexivity|].
+  cbn [filter]. rewrite (H x (or_introl eq_refl)). apply IH. intros e He. apply H. right. exact He.
+Qed.
+
+Lemma due_prefix : forall m a b prev i, 1 <= m ->
+  filter (due_by m (i + zlen a)) (transitions prev i (a ++ b)) =
+  filter (due_by m (i + zlen a)) (transitions prev i a).
+Proof.
+  intros m a b prev i Hm. rewrite transitions_app, filter_app.
+  rewrite (filter_none _ (transitions (last a prev) (i + zlen a) b)); [apply app_nil_r|].
+  intros [k p] He. apply transitions_lb in He. cbn [snd] in He. unfold due_by. cbn [fst snd].
+  destruct k; lia.
+Qed.
+
+(* C13_all_chunkings *)
+Lemma all_chunkings : forall d m init fs_arg cs first,
+  1 <= m -> input_ok first cs -> clean m init (stream cs) = true ->
+  exists bs, run_edges d m init fs_arg cs = (bs, Ok) /\
+    forall kk : nat,
+      concat (map evs (firstn kk bs)) =
+      filter (wanted d)
+        (filter (due_by m (first + zlen (stream (firstn kk cs)))) (transitions init first (stream cs))).
+Proof.
+  intros d m init fs_arg cs first Hm Hin Hcl.
+  destruct (all_full d m init fs_arg cs first Hm Hin Hcl) as (bs & R & _).
+  exists bs. split; [exact R|]. intros kk.
+  destruct (all_full d m init fs_arg (firstn kk cs) first Hm) as (bk & Rk & Ek & _).
+  - apply input_ok_firstn. exact Hin.
+  - unfold clean in *. rewrite (stream_split kk cs) in Hcl. eapply clean_aux_prefix. exact Hcl.
+  - rewrite (run_edges_firstn _ _ _ _ _ _ kk R) in Rk. inversion Rk; subst bk.
+    rewrite Ek. f_equal. rewrite (stream_split kk cs). symmetry. apply due_prefix. exact Hm.
+Qed.
+
+(* all of it at once, plus where the events of a block lie *)
+Lemma all_chunkings_whole : forall d m init fs_arg cs first,
+  1 <= m -> input_ok first cs -> clean m init (stream cs) = true ->
+  exists bs, run_edges d m init fs_arg cs = (bs, Ok) /\
+    concat (map evs bs) =
+    filter (wanted d) (filter (due_by m (first + zlen (stream cs))) (transitions init first (stream cs))) /\
+    (forall E e, In E bs -> In e (evs E) -> e_start E < snd e < e_end E + m).
+Proof. exact all_full. Qed.
+
+(* once the stream has been steady for m samples nothing is pending *)
+Lemma transitions_shift : forall x prev i c,
+  transitions prev (i + c) x = map (fun e => (fst e, snd e + c)) (transitions prev i x).
+Proof.
+  induction x as [|b t IH]; intros prev i c; [reflexivity|].
+  cbn [transitions]. rewrite map_app. f_equal.
+  - destruct (negb prev && b); [reflexivity|]. destruct (prev && negb b); reflexivity.
+  - replace (i + c + 1) with (i + 1 + c) by lia. apply IH.
+Qed.
+
+Lemma settled_all_due : forall m init first x, 1 <= m -> settled m init x = true ->
+  filter (due_by m (first + zlen x)) (transitions init first x) = transitions init first x.
+Proof.
+  intros m init first x Hm H. apply filter_all. intros e He.
+  replace first with (0 + first) in He by lia. rewrite transitions_shift in He.
+  apply in_map_iff in He. destruct He as ([k p] & <- & Hin).
+  unfold settled in H. rewrite forallb_forall in H. specialize (H _ Hin). cbn [fst snd] in *.
+  unfold due_by. cbn [fst snd]. destruct k; lia.
+Qed.
+
+Lemma all_transitions_when_settled : forall d m init fs_arg cs first,
+  1 <= m -> input_ok first cs -> clean m init (stream cs) = true -> settled m init (stream cs) = true ->
+  exists bs, run_edges d m init fs_arg cs = (bs, Ok) /\
+    concat (map evs bs) = filter (wanted d) (transitions init first (stream cs)).
+Proof.
+  intros d m init fs_arg cs first Hm Hin Hcl Hs.
+  destruct (all_full d m init fs_arg cs first Hm Hin Hcl) as (bs & R & E & _).
+  exists bs. split; [exact R|]. rewrite E, settled_all_due by assumption. reflexivity.
+Qed.
+
+(* ------------------------------------------------------------------ *)
+(* witnesses                                                            *)
+(* ------------------------------------------------------------------ *)
+Definition plain (x : list bool) : chunk := {| c_ann := None; c_data := x |}.
+
+(* without the run-length precondition the reported events depend on the chunking:
+   1 1 1 0 1 1 1 after a high initial state, debounce 2: nothing as one chunk, a falling and a
+   rising event when the boundary falls right after the low sample *)
+Lemma unclean_chunking_dependent :
+  exists m init x c1 c2,
+    clean m init x = false /\ stream c1 = x /\ stream c2 = x /\
+    input_ok 0 c1 /\ input_ok 0 c2 /\
+    concat (map evs (fst (run_edges DBoth m init 1000 c1))) <>
+    concat (map evs (fst (run_edges DBoth m init 1000 c2))).
+Proof.
+  exists 2, true, [true; true; true; false; true; true; true],
+         [plain [true; true; true; false; true; true; true]],
+         [plain [true; true; true; false]; plain [true; true; true]].
+  split; [reflexivity|]. split; [reflexivity|]. split; [reflexivity|].
+  split; [left; cbn; auto|]. split; [left; cbn; auto|].
+  vm_compute. discriminate.
+Qed.
+
+(* a block can hold an event that lies outside its own span [start, end): the falling edge is
+   reported as soon as its sample arrives, while the block spans are delayed by m *)
+Lemma event_outside_block :
+  exists m init cs bs E,
+    clean m init (stream cs) = true /\ input_ok 0 cs /\
+    run_edges DBoth m init 1000 cs = (bs, Ok) /\ In E bs /\ ~ contained E.
+Proof.
+  exists 2, false,
+    [plain [false; true; true; true; false; false; false; true]; plain [true; true]; plain [false]].
+  eexists. eexists.
+  split; [reflexivity|]. split; [left; cbn; auto|].
+  split; [vm_compute; reflexivity|].
+  split; [right; right; left; reflexivity|].
+  intros H. specialize (H (Falling, 10) (or_introl eq_refl)). cbn in H. lia.
+Qed.
+
+(* non-vacuity of the hypotheses of all_chunkings *)
+Example all_chunkings_ex :
+  let cs := [plain [false; true]; plain [true; true; false]; plain []; plain [false; false; true; true]] in
+  1 <= 2 /\ input_ok 0 cs /\ clean 2 false (stream cs) = true /\
+  concat (map evs (fst (run_edges DBoth 2 false 1000 cs))) = [(Rising, 1); (Falling, 4); (Rising, 7)].
+Proof. cbn zeta. split; [lia|]. split; [left; cbn; repeat split|]. split; [vm_compute; reflexivity|vm_compute; reflexivity]. Qed.
